@@ -17,6 +17,7 @@ def main(argv=None):
     a = ap.parse_args(argv)
     seed = int(os.environ.get("VERIF_SEED", "0") or 0)
     pid = a.pid.upper()
+    ck = None
     try:
         core.use_repo()
         mod = importlib.import_module(f"jv.props.{pid.lower()}")
@@ -33,11 +34,25 @@ def main(argv=None):
         return ck.finish()
     except core.MachineryError as e:
         print(f"MACHINERY-FAILURE {pid}: {e}", file=sys.stderr)
-        return 2
+        return _after_failure(ck, a)
     except Exception:
         traceback.print_exc()
         print(f"MACHINERY-FAILURE {pid}: unexpected exception in harness", file=sys.stderr)
-        return 2
+        return _after_failure(ck, a)
+
+
+def _after_failure(ck, a):
+    """The machinery broke down part-way.  Violations of the property by the real code that were
+    already established (and printed) stay true: report them (exit 1); otherwise exit 2."""
+    if ck is not None and ck.violations and not a.replay:
+        ck.extra["machinery_failure_after_violations"] = True
+        ck.exhaustive = False
+        try:
+            ck.finish()
+        except Exception:  # noqa
+            pass
+        return 1
+    return 2
 
 
 if __name__ == "__main__":
